@@ -4183,6 +4183,7 @@ def r8_fold(L, fm, K, tier):
     noise = [b for b in (0x04, 0x08, 0x10, 0x20, 0x40, 0x80) if b not in (SERV, HOPP)]
     diff = fault = gate = table = None
     n = nlists = 0
+    outcomes = {}           # (return value, refused by the reference, non-empty reference list) -> first witness (C20.R12)
     base = [(noise[0] if a % 3 == 0 else 0) | (noise[1] if a % 7 == 1 else 0) | (HOPP if a % 5 == 2 else 0) for a in range(N)]
     for (name, ca, ma, si4) in fold_witnesses(tier):
         masks = list(base)
@@ -4220,7 +4221,9 @@ def r8_fold(L, fm, K, tier):
         n += 1
         ref = reference_decoding(ca, ma)
         if ret is None or ret is UNDEF or isinstance(ret, Ptr):
+            L.__dict__.pop("_c20_outcomes", None)
             return "undecided", "%s: the decoder returns no definite value" % where
+        outcomes.setdefault((ret, ref is None, bool(ref)), where)
         if ref is None:
             if ret >= 0:
                 gate = gate or "%s: accepted (return value %d)" % (where, ret)
@@ -4242,6 +4245,7 @@ def r8_fold(L, fm, K, tier):
                                                                    "0x%02x" % masks[changed[0]] if masks[changed[0]] is not UNDEF else masks[changed[0]])
     if n < 100:
         return "undecided", "only %d witnesses were folded" % n
+    L.__dict__["_c20_outcomes"] = outcomes
     L.floor(R, "boundary witnesses on which the decoder was folded", n, 400)
     dom = "%d witnesses: every length 0..%d x {empty, full, highest set bit at every position} against a 64 channel cell allocation; " \
           "cell allocations of 0, 1, 3, 9 and 64 channels with / without ARFCN 0; lengths %d..255" % (n, MAXLEN, MAXLEN + 1)
@@ -4406,9 +4410,21 @@ def synth_prelude(L, H, body, fname, mac_names, mac_lines):
                                                           txt[:m.start()].rstrip()[-1:] in (";", "{", "}")):
             declared.add(nm)
             consts.append(nm)
-    pre += ["int %s();" % f for f in funs]
+    # a callee whose result is the operand of a unary `*` yields a pointer (`*TLVP_VAL(&tp, IE)`): what it points to
+    # stays opaque octets
+    pre += [("const unsigned char *%s();" if _deref_callee(txt, f) else "int %s();") % f for f in funs]
     pre += ["extern const int %s;" % c for c in consts]
     return pre, real_used, funs
+
+
+def _deref_callee(txt, f):
+    """the call `f(...)` is the operand of a unary `*` somewhere in the text (the token in front of the `*` cannot end
+    an operand, so the `*` is not a multiplication)"""
+    for m in re.finditer(r"\*\s*%s\s*\(" % re.escape(f), txt):
+        prev = txt[:m.start()].rstrip()
+        if not prev or not (prev[-1].isalnum() or prev[-1] in "_)]") or re.search(r"\breturn$", prev):
+            return True
+    return False
 
 
 def caller_slice(L, H, rel, fname, hdr_clean):
@@ -4419,13 +4435,26 @@ def caller_slice(L, H, rel, fname, hdr_clean):
     mac, mac_lines, _ = const_macros(hdr_clean, src, first)
     ulines, unames = util_macros(L, body)
     pre, real_used, funs = synth_prelude(L, H, body, fname, set(mac) | unames, mac_lines + ulines)
-    text = "\n".join(pre) + "\n" + body + "\n"
     tmp = tempfile.mkdtemp(prefix="vsa-c20-", dir=os.environ.get("TMPDIR") or "/var/tmp")
     try:
         path = os.path.join(tmp, "caller.c")
-        with open(path, "w", encoding="utf-8", errors="surrogateescape") as f:
-            f.write(text)
-        tu = TU(L.repo, "plain", "caller.c", abs_file=path, extra_flags=("-std=gnu89",), L=L)
+        opaque = []
+        while True:
+            with open(path, "w", encoding="utf-8", errors="surrogateescape") as f:
+                f.write("\n".join(pre) + "\n" + body + "\n")
+            try:
+                tu = TU(L.repo, "plain", "caller.c", abs_file=path, extra_flags=("-std=gnu89",), L=L)
+                break
+            except AnalysisError as e:
+                # objects of file scope the function names (`&gsm48_rr_att_tlvdef`): clang says which identifiers have no
+                # declaration; they are declared as objects of an incomplete type, so nothing but their address can be used
+                new = [x for x in re.findall(r"use of undeclared identifier '(\w+)'", str(e)) if x not in opaque]
+                if not new or len(opaque) > 12:
+                    raise
+                for x in new:
+                    if x not in opaque:
+                        opaque.append(x)
+                        pre.append("extern struct vsa_opaque_object_ %s;" % x)
     finally:
         shutil.rmtree(tmp, ignore_errors=True)
     fd = tu.func(fname)
@@ -5016,6 +5045,560 @@ def r9_ready(L, tier):
     L.assume("C20.R9: the received-flags of struct gsm48_sysinfo are clear before the first message of a cell (the object is "
              "zeroed when a cell is selected); functions outside sysinfo.c that are called between the store of a flag and the "
              "re-run of the parser do not write it")
+
+
+# ===================================== callers: the LV buffer handed to the decoder
+
+COPY_FNS = ("memcpy", "memmove", "__builtin_memcpy", "__builtin_memmove", "__builtin___memcpy_chk")
+
+
+def canon_mem(t):
+    """`*p` and `p[0]` are the same octet: ("call", "deref", p) -> ("idx", p, 0)"""
+    if t[0] in ("c", "v"):
+        return t
+    t = tuple(canon_mem(x) if isinstance(x, tuple) else x for x in t)
+    if t[0] == "call" and t[1] == "deref" and len(t) == 3:
+        return ("idx", t[2], X.C(0))
+    return t
+
+
+def struct_of(e):
+    """name of the struct type the object expression `e` has (None: anonymous / not a struct)"""
+    m = re.fullmatch(r"struct (\w+)", re.sub(r"[\s\*]+$", "", qt_of(e)))
+    return m.group(1) if m else None
+
+
+def field_ptr(fm, e):
+    """pointer expression -> (MemberExpr | DeclRefExpr the pointer points into, constant octet/element offset) | None.
+    Like ptr_split, and `&x.arr` (pointer to the whole array: same address as its first element)."""
+    e = strip(e, casts=True)
+    if kind(e) == "UnaryOperator" and e.get("opcode") == "&":
+        t = strip(kids(e)[0])
+        if kind(t) in ("MemberExpr", "DeclRefExpr") and "[" in qt_of(t):
+            return (t, 0)
+    return ptr_split(fm, e)
+
+
+def lv_fields(L, H, hdr, tier):
+    """Struct members the decoder is fed from in LV form: call sites `decoder(.., x->M + 1, x->M[0], ..)` with M an
+    octet array of struct S  ->  {(S, M): call-site text}"""
+    out = {}
+    for rel in caller_files(L, tier):
+        cf = CFile(L, rel)
+        for fname in sorted({fi[0] for (fi, pos, args) in cf.calls(FN)}):
+            fm = slice_of(L, H, rel, fname, hdr)
+            for (n, c) in fm.calls:
+                if ctext(kids(c)[0]) != FN or len(kids(c)) != 7:
+                    continue
+                args = kids(c)[1:]
+                sp = ptr_split(fm, args[1])
+                if sp is None or sp[1] != 1 or kind(sp[0]) != "MemberExpr":
+                    continue
+                base = sp[0]
+                ln = strip(args[2], casts=True)
+                if not (kind(ln) == "ArraySubscriptExpr" and ctext(kids(ln)[0]) == ctext(base) and fm.tu.fold(kids(ln)[1]) == 0):
+                    continue
+                m = re.fullmatch(r"(.+?)\s*\[(\d+)\]", qt_of(base))
+                S = struct_of(strip(kids(base)[0]))
+                if not m or _SIZE1.fullmatch(m.group(1)) is None or S is None:
+                    continue
+                out.setdefault((S, base.get("name")), "%s(%s, %s) in %s()" % (FN, ctext(args[1]), ctext(args[2]), fname))
+    return out
+
+
+def sizeof_ok(fm, e):
+    """every sizeof inside the expression is the size of an octet array member whose declaration was read from the
+    tree (a synthesised member has a made-up type)"""
+    for x in walk(e):
+        if kind(x) == "UnaryExprOrTypeTraitExpr":
+            ks = kids(x)
+            a = strip(ks[0]) if ks else None
+            if x.get("name") != "sizeof" or a is None or kind(a) != "MemberExpr":
+                return False
+            real = fm.real_structs.get(struct_of(strip(kids(a)[0])) or "")
+            if real is None or a.get("name") not in real[1] or not SCALAR.fullmatch(" ".join(real[1][a.get("name")][0].split())):
+                return False
+    return True
+
+
+def octet_atoms(fm, fname, n, xt, what):
+    """Guard atoms dominating `n` that constrain the octet `xt`: the atoms over `xt` alone and, transitively, the atoms
+    that relate it to other values (`remaining < len + 2`) with the atoms over those.  -> ([(term, pol)], other leaves,
+    exact): exact is False when an atom of that component cannot be folded (it is left out, so the admitted set can
+    only grow: a proof over it stands, a counterexample does not).  An atom that tests a local which changes before
+    `n` ends the analysis."""
+    ats = []
+    for a in fm.atoms(n):
+        t = canon_mem(a[0])
+        t2 = canon_mem(fm.subst_temps(t, a[2]))
+        p = a[1]
+        if t2 != t:
+            t, p = fm.norm_term(t2, p)
+            t = canon_mem(t)
+        ats.append((t, p, a, leaves(t)))
+    comp, grown = {xt}, True
+    while grown:
+        grown = False
+        for (t, p, a, lv) in ats:
+            if lv & comp and not lv <= comp:
+                comp |= lv
+                grown = True
+    out, exact = [], True
+    for (t, p, a, lv) in ats:
+        if not lv & comp:
+            if any(xt in subterms(x) for x in lv):
+                exact = False
+            continue
+        names = sorted({y[1] for x in lv for y in subterms(x) if y[0] == "v" and (y[1] in fm.locals or y[1] in fm.params)})
+        if names and not fm.stable(n, a, names):
+            raise AnalysisError("%s(): guard `%s` tests a value that changes before the copy" % (fname, X.show(t)))
+        lin = t in comp or (t[0] == "cmp" and unit_linear(t[2], comp) and unit_linear(t[3], comp))
+        if not lin or any(xt in subterms(x) and x != xt for x in lv):
+            exact = False
+            continue
+        out.append((t, p))
+    return out, sorted(comp - {xt}), exact
+
+
+def admits(use, extra, xt, v):
+    """some assignment of the other leaves satisfies all atoms together with octet value v.  Folded in the integers,
+    which is what C computes as long as no compared operand is negative (an unsigned conversion would change a
+    negative one): assignments with a negative operand are not counted."""
+    if len(extra) > 2:
+        raise AnalysisError("guards relate the length octet to %d other values (at most 2 are folded)" % len(extra))
+    cs = {MAXLEN + 1}
+    for (t, p) in use:
+        consts_of(t, cs)
+    C = 3 * max(cs) + 20
+    box = list(range(0, C + 1)) + list(range(-1, -C - 1, -1))
+
+    def ok(m):
+        for (t, p) in use:
+            tt = subst(t, m)
+            try:
+                if tt[0] == "cmp" and (ev(tt[2], {}) < 0 or ev(tt[3], {}) < 0):
+                    return False
+                if bool(ev(tt, {})) != p:
+                    return False
+            except Unknown as u:
+                raise AnalysisError("guard `%s` cannot be folded (%s)" % (X.show(t), u))
+        return True
+    if not extra:
+        return ok({xt: v})
+    if len(extra) == 1:
+        return any(ok({xt: v, extra[0]: a}) for a in box)
+    return any(ok({xt: v, extra[0]: a, extra[1]: b}) for a in box for b in box)
+
+
+def r11_lv_copies(L, tier):
+    """C20.R11 -- caller half of the clause "the decoded hopping list contains exactly the cell-allocation channels
+    whose bit is set", at the assignment / handover / frequency-redefinition callers.  There the decoder does not read
+    the received message but a struct member M in LV form (`cd->mob_alloc_lv`: call site `decoder(.., cd->M + 1,
+    cd->M[0], ..)`, found on the clang AST of the caller): octet 0 is the length L, octets 1..L the bitmap, and bit
+    index 0 (the first cell-allocation channel) is the LSB of the LAST octet.  Every copy that constructs such a
+    buffer (memcpy / memmove whose destination is member M at offset 0, in any function of the caller's file) takes an
+    LV from its source; what the decoder later reads is the received bitmap only if the copy transports the length
+    octet and all L bitmap octets: size >= 1 + L for every L in 1..8 (the lengths for which the decoder reads
+    octets) that the guard atoms dominating the copy admit.  The size expression is lowered to a term (tested
+    temporaries resolved), must be a function of the source's length octet alone (`*lv + 1`, `x->len + 1`, a
+    `sizeof` of an octet array member whose declaration is read from the tree) and is folded for each L.  A copy of
+    `lv[0]` octets leaves bitmap octet L at what the buffer held before, so the channels of bit indexes 0..7 are decoded
+    from stale data: a violation with that L as counterexample.  A copy at another offset, a size that reads
+    anything else, or a sizeof of a synthesised member is not classified (ANALYSIS-ERROR)."""
+    R = "C20.R11"
+    with open(L.unit(F_HDR), "r", encoding="utf-8", errors="surrogateescape") as f:
+        hdr = blank_strings(strip_comments(f.read()))
+    H = HeaderIndex(L)
+    fields = lv_fields(L, H, hdr, tier)
+    L.floor(R, "struct members handed to %s in LV form (gsm48_rr_cd.mob_alloc_lv)" % FN, len(fields), 1)
+    ncopies = 0
+    for (S, M) in sorted(fields):
+        rels = caller_files(L, tier)
+        if tier == "thorough":
+            top = os.path.join(L.repo, "src/host/layer23/src")
+            for dp, dn, fns in os.walk(top):
+                dn.sort()
+                for fn in sorted(fns):
+                    rel = os.path.relpath(os.path.join(dp, fn), L.repo)
+                    if fn.endswith(".c") and rel not in rels:
+                        with open(os.path.join(dp, fn), "r", encoding="utf-8", errors="surrogateescape") as f:
+                            if re.search(r"\b%s\b" % re.escape(M), f.read()):
+                                rels.append(rel)
+        for rel in rels:
+            cf = CFile(L, rel)
+            fnames = sorted({fi[0] for cp in COPY_FNS for (fi, pos, args) in cf.calls(cp)
+                             if args and re.search(r"\b%s\b" % re.escape(M), args[0])})
+            for fname in fnames:
+                fm = slice_of(L, H, rel, fname, hdr)
+                seen = {}
+                for (n, c) in fm.calls:
+                    if ctext(kids(c)[0]) not in COPY_FNS or len(kids(c)) < 4:
+                        continue
+                    args = kids(c)[1:]
+                    if not any(kind(x) == "MemberExpr" and x.get("name") == M for x in walk(args[0])):
+                        continue
+                    ncopies += r11_copy(L, R, fm, rel, fname, n, c, S, M, fields[(S, M)], seen)
+    L.floor(R, "copies that construct a Mobile Allocation LV buffer of the decoder's callers", ncopies, 3)
+    L.assume("C20.R11: between a guard on an LV's length octet and the copy of that LV no callee / logging macro modifies the "
+             "source buffer; an LV source holds 1 + L readable octets (the parsers that produce it are outside this rule)")
+
+
+def r11_copy(L, R, fm, rel, fname, n, c, S, M, site, seen):
+    args = kids(c)[1:]
+    cal = ctext(kids(c)[0])
+    dp = field_ptr(fm, args[0])
+    de = strip(args[0], casts=True)
+    if dp is None and kind(de) == "UnaryOperator" and de.get("opcode") == "&" and kind(strip(kids(de)[0])) == "MemberExpr" and \
+            strip(kids(de)[0]).get("name") == M and struct_of(strip(kids(strip(kids(de)[0]))[0])) is None:
+        dp = (strip(kids(de)[0]), 0)        # `&x.inner.M` behind a synthesised (anonymous) inner struct: the member's type is made up
+    if dp is None or kind(dp[0]) != "MemberExpr" or dp[0].get("name") != M:
+        raise AnalysisError("%s(): destination `%s` of %s() names the LV member %s in a way the rule cannot resolve" % (
+            fname, ctext(args[0])[:50], cal, M))
+    dst, doff = dp
+    owner = struct_of(strip(kids(dst)[0]))
+    if owner is not None and owner != S:
+        return 0                    # a member of the same name in another struct
+    if doff != 0:
+        raise AnalysisError("%s(): %s() into `%s` at offset %d: the LV is put together piecewise (unclassifiable)" % (
+            fname, cal, ctext(dst), doff))
+    # the source LV and its length octet
+    se = strip(args[1], casts=True)
+    if kind(se) == "UnaryOperator" and se.get("opcode") == "&" and kind(strip(kids(se)[0])) in ("MemberExpr", "DeclRefExpr") \
+            and "[" not in qt_of(strip(kids(se)[0])):
+        xt = canon_mem(fm.lower(strip(kids(se)[0])))
+    else:
+        sp = field_ptr(fm, se)
+        if sp is None or sp[1] < 0:
+            raise AnalysisError("%s(): source `%s` of the copy into `%s` is not `buffer + constant` (unclassifiable)" % (
+                fname, ctext(args[1])[:50], ctext(dst)))
+        xt = ("idx", canon_mem(fm.lower(sp[0])), X.C(sp[1]))
+    xq = qt_of(strip(kids(se)[0])) if kind(se) == "UnaryOperator" else re.sub(r"\s*(\*|\[\d*\])$", "", qt_of(se if kind(se) != "BinaryOperator" else sp[0]))
+    if _SIZE1.fullmatch(xq.strip()) is None:
+        raise AnalysisError("%s(): source `%s` of the copy into `%s` is not made of octets (%s)" % (fname, ctext(args[1])[:50], ctext(dst), xq))
+    # the size as a function of the length octet
+    if not sizeof_ok(fm, args[2]):
+        raise AnalysisError("%s(): size `%s` of the copy into `%s` takes a sizeof the rule cannot trust (member not read from the tree)" % (
+            fname, ctext(args[2])[:50], ctext(dst)))
+    try:
+        nt = canon_mem(fm.subst_temps(canon_mem(fm.lower(args[2])), n))
+    except AnalysisError as e:
+        raise AnalysisError("%s(): size `%s` of the copy into `%s` is not understood (%s)" % (fname, ctext(args[2])[:50], ctext(dst), e))
+    if leaves(nt) - {xt}:
+        raise AnalysisError("%s(): size `%s` of the copy into `%s` is not a function of the source's length octet `%s` alone" % (
+            fname, ctext(args[2])[:50], ctext(dst), X.show(xt)))
+    use, extra, exact = octet_atoms(fm, fname, n, xt, "the length octet")
+    bad, admitted = None, []
+    for x in range(1, MAXLEN + 1):
+        if not admits(use, extra, xt, x):
+            continue
+        admitted.append(x)
+        try:
+            sz = ev(subst(nt, {xt: x}), {})
+        except Unknown as u:
+            raise AnalysisError("%s(): size `%s` cannot be folded (%s)" % (fname, ctext(args[2])[:50], u))
+        if sz < 1 + x and bad is None:
+            bad = (x, sz)
+    if bad is not None and not exact:
+        raise AnalysisError("%s(): size `%s` of the copy into `%s` is %d for L = %d, but a guard on the length octet could not be folded: "
+                            "whether that length reaches the copy is open" % (fname, ctext(args[2])[:50], ctext(dst), bad[1], bad[0]))
+    k = seen[(ctext(dst), ctext(args[1]))] = seen.get((ctext(dst), ctext(args[1])), 0) + 1
+    gtxt = " && ".join(sorted({("%s" if p else "!(%s)") % X.show(t) for (t, p) in use})) or "none"
+    if bad is None:
+        found = "size `%s` >= 1 + L for L in %s (guards on the length octet: %s)" % (stmt_text(args[2]), span(admitted), gtxt)
+    else:
+        x, sz = bad
+        lost = "bitmap octet%s %s" % ("s" if x - max(sz, 1) + 1 > 1 else "", span(list(range(max(sz, 1), x + 1))))
+        found = "size `%s` is %d for L = %d: %s of the LV %s not copied -- the decoder reads bit indexes 0..%d (the first " \
+                "cell-allocation channels) from what `%s` held before" % (
+                    stmt_text(args[2]), sz, x, lost, "is" if x - max(sz, 1) + 1 == 1 else "are", 8 * (x - max(sz, 1) + 1) - 1, ctext(dst))
+    L.ob(R, rel, fname, "copy of a Mobile Allocation LV into `%s` from `%s`%s (decoded later by %s): the length octet and all L bitmap "
+         "octets the decoder reads are copied" % (ctext(dst), ctext(args[1]), " (#%d)" % k if k > 1 else "", site),
+         "size >= 1 + L for every admitted L in 1..%d" % MAXLEN, found, bad is None, fm.line(c))
+    return 1
+
+
+# ========================================== callers: what is done with the result
+
+def fold_outcomes(L, fmD):
+    """The decoder's results as the callers can see them: [{"ret", "refused", "nonempty", "where"}] -- from the witness
+    fold (C20.R8: actual return values for concrete bitmaps, classified by the reference decoding); when the decoder
+    cannot be interpreted, from its return statements (constants, classified by the lengths that reach them)."""
+    outs = L.__dict__.get("_c20_outcomes")
+    if outs:
+        return [dict(zip(("ret", "refused", "nonempty"), k), where=w) for (k, w) in sorted(outs.items(), key=lambda kv: (kv[0][1], kv[0][2], kv[0][0]))], "witness fold"
+    out = []
+    lenp = fmD.params[2] if len(fmD.params) == 6 else None
+    for r in [n for n in fmD.g.nodes if n.kind == "stmt" and kind(n.ast) == "ReturnStmt"]:
+        ks = kids(r.ast)
+        val = fmD.tu.fold(ks[0]) if ks else None
+        if val is None or lenp is None or not fmD.never_written(lenp):
+            raise AnalysisError("%s(): the set of return values cannot be folded (`%s`), and the decoder could not be interpreted on "
+                                "witnesses" % (FN, ctext(r.ast)[:40]))
+        dom = fmD.domain(r, lenp)
+        if dom and all(v > MAXLEN for v in dom):
+            out.append({"ret": val, "refused": True, "nonempty": False, "where": "`%s` for a bitmap of %d octets" % (ctext(r.ast), dom[0])})
+        elif dom and all(v <= MAXLEN for v in dom):
+            for ne in (False, True):
+                out.append({"ret": val, "refused": False, "nonempty": ne, "where": "`%s` after decoding %s list" % (ctext(r.ast), "a non-empty" if ne else "an empty")})
+        elif dom:
+            raise AnalysisError("%s(): `%s` is reached by accepted and by rejected lengths" % (FN, ctext(r.ast)[:40]))
+    return out, "return statements"
+
+
+def eval3(t, m):
+    """three-valued truth / value of a term under the binding m (leaf -> int): None when it hangs on something else"""
+    k = t[0]
+    if k == "not":
+        v = eval3(t[1], m)
+        return None if v is None else int(not v)
+    if k in ("and", "or"):
+        a, b = eval3(t[1], m), eval3(t[2], m)
+        if k == "and":
+            return 0 if (a is not None and not a) or (b is not None and not b) else (None if a is None or b is None else 1)
+        return 1 if (a is not None and a) or (b is not None and b) else (None if a is None or b is None else 0)
+    try:
+        return ev(subst(t, m), {})
+    except (Unknown, AnalysisError):
+        return None
+
+
+def r12_result(L, sl, tier):
+    """C20.R12 -- caller half of the clause "the decoded hopping list contains exactly the cell-allocation channels
+    whose bit is set" (observe points: hopping[] / hopp_len / return code): what a caller does with the decoder's return
+    value must fit what the decoder returns.  The decoder's results are folded first -- the witness fold C20.R8 yields the
+    actual return value for concrete bitmaps (refused: longer than 8 octets; decoded: empty / non-empty list), so the set
+    is right whether the decoder says `return 0` or returns the number of channels.  At each call site (clang AST of the
+    caller's slice) the result is discarded, tested in place, or held in a local whose only reaching definition is the
+    call; every condition over it that can be reached from the call is decided for each result (converted to the
+    local's type; a condition that mixes it with other values, or compares it after an unsigned conversion, is not
+    classified), which prunes the caller's CFG per result.  Two necessary conditions:
+      (b) a caller that lets the decoder fill its own local list publishes it only by reading that local: for every
+          decoded non-empty list a statement reading the local list (and the local length) must remain reachable --
+          otherwise the list is thrown away for that bitmap (`if (!rc) memcpy(s->hopping, ...)` with rc = number of channels);
+      (a) a decoded non-empty list must not be handled exactly like a refused bitmap while another decoded result is
+          handled differently, where "handled" is the set of reachable statements that read the decoder's output objects
+          and the reachable return statements (with the value they return).
+    The counterexample is the witness bitmap of the result.  A result that is passed on in another way is not classified."""
+    R = "C20.R12"
+    fmD, K = sl
+    outs, how = fold_outcomes(L, fmD)
+    ne = [o for o in outs if not o["refused"] and o["nonempty"]]
+    if not ne or not [o for o in outs if o["refused"]]:
+        raise AnalysisError("results of %s(): no %s among the folded results (%s)" % (FN, "decoded non-empty list" if not ne else "refusal", how))
+    with open(L.unit(F_HDR), "r", encoding="utf-8", errors="surrogateescape") as f:
+        hdr = blank_strings(strip_comments(f.read()))
+    H = HeaderIndex(L)
+    nsites = 0
+    for rel in caller_files(L, tier):
+        cf = CFile(L, rel)
+        for fname in sorted({fi[0] for (fi, pos, args) in cf.calls(FN)}):
+            fm = slice_of(L, H, rel, fname, hdr)
+            for (n, c) in fm.calls:
+                if ctext(kids(c)[0]) == FN:
+                    nsites += 1
+                    r12_site(L, R, fm, rel, fname, n, c, outs, how)
+    L.floor(R, "call sites of %s whose use of the result was resolved" % FN, nsites, 2)
+    L.floor(R, "distinct results of the decoder the callers' tests are decided for (refusal, empty list, non-empty list)", len(outs), 3)
+
+
+def _mentions(e, name=None, node=None):
+    for x in walk(e):
+        if node is not None and x is node:
+            return True
+        if name is not None and kind(x) == "DeclRefExpr" and x.get("referencedDecl", {}).get("name") == name:
+            return True
+    return False
+
+
+def r12_site(L, R, fm, rel, fname, n, c, outs, how):
+    args = kids(c)[1:]
+    if len(args) != 6:
+        raise AnalysisError("call of %s() in %s() with %d arguments" % (FN, fname, len(args)))
+    where = "call of %s() in %s()" % (FN, fname)
+    # ---- how the result is taken
+    rc, wdef = None, None
+    top = n.ast if n.kind == "stmt" else getattr(n, "cond", None)
+    if n.kind == "stmt" and strip(top, casts=True) is c:
+        mode = "discarded"
+    elif n.kind == "cond" and isinstance(n.succ[0][1], bool) and _mentions(top, node=c):
+        mode = "tested in place"
+    else:
+        for v, ws in fm.writes.items():
+            for w in ws:
+                if w.node is n and w.val is not None and strip(w.val, casts=True) is c and w.how in ("init", "assign"):
+                    rc, wdef = v, w
+        if rc is None or rc not in fm.locals or rc in fm.dups or rc in fm.addr:
+            raise AnalysisError("%s: the result is passed on in a way the rule cannot follow (`%s`)" % (where, stmt_text(top)[:60] if top is not None else "?"))
+        mode = "held in `%s`" % rc
+    it = int_type(fm.tu, fm.locals[rc].get("type", {})) if rc else (32, True)
+    if it is None:
+        raise AnalysisError("%s: `%s` is not an integer (%s)" % (where, rc, qt_of(fm.locals[rc])))
+
+    def conv(v):
+        w, sg = it
+        v &= (1 << w) - 1
+        return v - (1 << w) if sg and v >> (w - 1) else v
+    leaf = X.V(rc) if rc else canon_mem(fm.lower(c))
+
+    def bound(q):
+        """condition node q tests the result of this call: True / False (another value) -- mixed: error"""
+        e = getattr(q, "cond", None)
+        if e is None:
+            return False
+        if rc is None:
+            return q is n
+        if not _mentions(e, name=rc):
+            return False
+        defs = fm.reaching_defs(rc, q)
+        if all(d is wdef for d in defs):
+            return True
+        if all(d is not wdef for d in defs):
+            return False
+        raise AnalysisError("%s: `%s` holds the result on some ways to `%s` only" % (where, rc, ctext(e)[:50]))
+
+    def unsigned_cast(e):
+        for x in walk(e):
+            if kind(x) in ("ImplicitCastExpr", "CStyleCastExpr") and x.get("castKind") in ("IntegralCast", None):
+                tt = int_type(fm.tu, x.get("type", {}))
+                if tt is not None and not tt[1] and (_mentions(x, name=rc) if rc else _mentions(x, node=c)):
+                    return x.get("type", {}).get("qualType")
+        return None
+
+    tests = []
+
+    def reach(o):
+        m = {leaf: conv(o["ret"])}
+        seen, work = set(), [n]
+        first = True
+        while work:
+            q = work.pop()
+            if q.id in seen and not first:
+                continue
+            if not first:
+                seen.add(q.id)
+            nxt = [s for (s, _) in q.succ]
+            if (not first or q.kind == "cond") and bound(q):
+                if q.kind != "cond" or not all(isinstance(l, bool) for (_, l) in q.succ):
+                    raise AnalysisError("%s: the result selects a %s (`%s`): only if / loop conditions are folded" % (where, q.kind, ctext(q.cond)[:40]))
+                u = unsigned_cast(q.cond)
+                if u:
+                    raise AnalysisError("%s: `%s` compares the result after a conversion to %s (wrap-around not modelled)" % (where, ctext(q.cond)[:50], u))
+                try:
+                    t = canon_mem(fm.lower(q.cond))
+                except AnalysisError as e:
+                    raise AnalysisError("%s: condition `%s` on the result is not understood (%s)" % (where, ctext(q.cond)[:50], e))
+                v = eval3(t, m)
+                if v is None:
+                    raise AnalysisError("%s: condition `%s` mixes the result with other values (unclassifiable)" % (where, ctext(q.cond)[:60]))
+                if stmt_text(q.cond) not in tests:
+                    tests.append(stmt_text(q.cond))
+                nxt = [s for (s, l) in q.succ if l == bool(v)]
+            first = False
+            work += [s for s in nxt if s.id not in seen]
+        return seen, m
+
+    # ---- the decoder's output objects at this site
+    objs = []
+    for a in (args[3], args[4]):
+        sp = field_ptr(fm, a)
+        if sp is None:
+            t = strip(a, casts=True)
+            if kind(t) == "UnaryOperator" and t.get("opcode") == "&" and kind(strip(kids(t)[0])) in ("MemberExpr", "DeclRefExpr"):
+                sp = (strip(kids(t)[0]), 0)
+        if sp is None:
+            raise AnalysisError("%s: output argument `%s` is not an object the rule can name" % (where, ctext(a)[:40]))
+        objs.append(sp[0])
+    otext = [ctext(x) for x in objs]
+
+    def reads(q):
+        if q is n:
+            return []
+        hit = []
+        for e in fm.exprs_of(q):
+            for x in walk(e):
+                if kind(x) in ("MemberExpr", "DeclRefExpr") and ctext(x) in otext and ctext(x) not in hit:
+                    hit.append(ctext(x))
+        return hit
+    byid = {q.id: q for q in fm.g.nodes}
+    if mode == "discarded":
+        R_all = fm.reach_succ(n)
+        sig = None
+    else:
+        sig = []
+        for o in outs:
+            seen, m = reach(o)
+            cons = set()
+            for i in seen:
+                q = byid[i]
+                if reads(q):
+                    cons.add(("read", i))
+                if q.kind == "stmt" and q.ast is not None and kind(q.ast) == "ReturnStmt":
+                    ks = kids(q.ast)
+                    val = None
+                    if ks and rc and _mentions(ks[0], name=rc) and all(d is wdef for d in fm.reaching_defs(rc, q)):
+                        try:
+                            val = eval3(canon_mem(fm.lower(ks[0])), m)
+                        except AnalysisError:
+                            val = None
+                        if val is None:
+                            raise AnalysisError("%s: `%s` forwards the result in a way the rule cannot fold" % (where, ctext(q.ast)[:50]))
+                    cons.add(("ret", i, val))
+            sig.append((o, seen, frozenset(cons)))
+        R_all = fm.reach_succ(n)
+    ttxt = ("`%s`" % "`, `".join(tests)) if tests else "no condition"
+
+    def fmt_o(o):
+        return "return value %d (%s)" % (o["ret"], o["where"])
+    # ---- (b) a list decoded into the caller's own locals must be read for every non-empty result
+    local_out = [x for x in objs if kind(x) == "DeclRefExpr" and x.get("referencedDecl", {}).get("name") in fm.locals
+                 and x.get("referencedDecl", {}).get("name") not in fm.dups]
+    for x in local_out:
+        nm = x.get("referencedDecl", {}).get("name")
+        users = [q for q in fm.g.nodes if q is not n and any(_mentions(e, name=nm) for e in fm.exprs_of(q))
+                 and not (q.ast is not None and any(kind(y) == "VarDecl" and y.get("name") == nm for y in walk(q.ast)))]
+        if any(q.id not in R_all for q in users):
+            raise AnalysisError("%s: the local `%s` that receives the decoder's output is also used outside the ways that follow the call "
+                                "(aliasing not modelled)" % (where, nm))
+        if not users:
+            raise AnalysisError("%s: the local `%s` that receives the decoder's output is never read: the call is not one that hands the list on "
+                                "(unclassifiable)" % (where, nm))
+        bad = None
+        if sig is not None:
+            for (o, seen, cons) in sig:
+                if not o["refused"] and o["nonempty"] and not any(q.id in seen for q in users):
+                    bad = o
+                    break
+        L.ob(R, rel, fname, "%s decodes into the caller's local `%s` (result %s): for every bitmap that decodes to a non-empty list a "
+             "statement reading `%s` stays reachable behind the tests of the result" % (where, nm, mode, nm),
+             "`%s` is read for every non-empty list" % nm,
+             "`%s` is read for every non-empty list (%s decided for %d results from the %s)" % (nm, ttxt, len(outs), how) if bad is None else
+             "%s: %s excludes every statement that reads `%s` (%s) -- the decoded list is thrown away" % (
+                 fmt_o(bad), ttxt, nm, ", ".join("`%s`" % stmt_text(q.ast if q.kind == "stmt" else q.cond)[:60] for q in users[:2])),
+             bad is None, fm.line(c))
+    # ---- (a) a non-empty list is not handled like a refusal while another decoded result is handled differently
+    bad = None
+    if sig is not None:
+        ref = [s for s in sig if s[0]["refused"]]
+        dec = [s for s in sig if not s[0]["refused"]]
+        for s1 in dec:
+            if not s1[0]["nonempty"] or bad:
+                continue
+            for s0 in ref:
+                other = [s2 for s2 in dec if s2[2] != s1[2]]
+                if s0[2] == s1[2] and other:
+                    diff = sorted(i for (i,) in {(x[1],) for x in other[0][2] ^ s1[2]})
+                    bad = (s1[0], s0[0], other[0][0], [byid[i] for i in diff])
+                    break
+    L.ob(R, rel, fname, "%s (result %s): a bitmap that decodes to a non-empty list is not handled exactly like a refused bitmap while "
+         "another decoded result is handled differently (reachable readers of %s and reachable returns, per result)" % (
+             where, mode, " / ".join("`%s`" % t for t in otext)),
+         "non-empty lists are not treated as refusals",
+         ("result not tested: the list goes to %s whatever the return value" % " / ".join("`%s`" % t for t in otext)) if sig is None else
+         ("%s decided for %d results from the %s: consistent" % (ttxt, len(outs), how)) if bad is None else
+         "%s is handled exactly like the refusal, %s, but unlike %s: %s decides %s" % (
+             fmt_o(bad[0]), fmt_o(bad[1]), fmt_o(bad[2]), ttxt,
+             ", ".join("`%s`" % stmt_text(q.ast if q.kind == "stmt" else q.cond)[:60] for q in bad[3][:3])),
+         bad is None, fm.line(c))
 
 
 # ================================================================= call sites
@@ -5760,3 +6343,5 @@ def run(L, tier):
     L.stage(soft(pending, r3_scratch), LD, D)
     L.stage(soft(pending, r4_order), LD, D)
     L.stage(decide, L, sl, pending, tier)
+    L.stage(r11_lv_copies, L, tier)     # callers: the LV buffer the decoder reads holds the whole received bitmap
+    L.stage(r12_result, L, sl, tier)    # callers: tests of the return value fit the results folded by C20.R8
